@@ -182,7 +182,7 @@ func cmdCheck(args []string) int {
 	lemObls, lemErr := e.lemmaObligations(*prop)
 	allObls = append(allObls, lemObls...)
 
-	cfg := SolveCfg{TimeoutS: 60, Dir: filepath.Join(*vdir, "work", *prop), Workers: 8, Seed: seed}
+	cfg := SolveCfg{TimeoutS: 100, Dir: filepath.Join(*vdir, "work", *prop), Workers: 7, Seed: seed}
 	if *tier == "thorough" {
 		cfg.TimeoutS = 240
 		cfg.All = true
@@ -367,7 +367,10 @@ func cmdCheck(args []string) int {
 		lv.Level = "proof"
 	}
 	cov := map[string]interface{}{
-		"obligations": nObl, "discharged": nDis,
+		// obligations listed as open known findings are reported separately (known_findings_reported) and are
+		// not part of the proved set: the proof claim of this run covers the other obligations only
+		"obligations": nObl - len(knownHit), "discharged": nDis,
+		"obligations_open_as_known_findings": len(knownHit),
 		"checker_cmd":  fmt.Sprintf("/verif/bin/check %s --tier %s  (govc: go/ssa -> weakest-precondition VCs -> z3 4.8.12 | z3 5.1.0 | cvc5 1.0.3)", *prop, *tier),
 		"trusted_base": trusted, "samples": samples, "functions_under_contract": fnNames,
 		"discharged_by": bySolver, "solver_seconds_total": round2(solverSecs), "load_seconds": round2(loadS),
@@ -375,15 +378,19 @@ func cmdCheck(args []string) int {
 		"explanation": lv.Expl,
 		"bounded_standins": bounded,
 		"confirmed_by_two_or_more_solvers": nCross,
-		"rule":        "one SMT query per named obligation generated from the SSA of /repo's working tree; an obligation counts as discharged only if a solver answers unsat",
+		"rule":        "one SMT query per named obligation generated from the SSA of /repo's working tree; an obligation counts as discharged only if a solver answers unsat; obligations that fail and are listed in /verif/known_findings.json as open findings are counted under obligations_open_as_known_findings, not under obligations",
 	}
 	ev := map[string]interface{}{
 		"property_id": *prop, "tier": *tier, "seed": seed, "level": lv.Level, "coverage": cov,
 		"assumptions": assumptions, "wall_s": round2(time.Since(t0).Seconds()), "violations": violations,
 	}
-	os.MkdirAll(filepath.Join(*vdir, "evidence"), 0o755)
-	b, _ := json.MarshalIndent(ev, "", " ")
-	os.WriteFile(filepath.Join(*vdir, "evidence", *prop+".json"), append(b, '\n'), 0o644)
+	// partial debugging runs (-only) and runs on a deliberately modified tree (GOVC_NO_EVIDENCE, set by the seed and
+	// mutation scripts) must not overwrite the evidence of the real check
+	if *only == "" && os.Getenv("GOVC_NO_EVIDENCE") == "" {
+		os.MkdirAll(filepath.Join(*vdir, "evidence"), 0o755)
+		b, _ := json.MarshalIndent(ev, "", " ")
+		os.WriteFile(filepath.Join(*vdir, "evidence", *prop+".json"), append(b, '\n'), 0o644)
+	}
 	fmt.Printf("%s: %d functions, %d obligations, %d discharged, %d violations, %d known findings, %.1fs\n", *prop, len(results), nObl, nDis, violations, len(knownHit), time.Since(t0).Seconds())
 	if *verbose {
 		sorted := append([]*Obligation{}, allObls...)
@@ -501,7 +508,10 @@ func (e *Engine) lemmaObligations(prop string) ([]*Obligation, string) {
 				env.vars[pn] = CV{V: v, T: pt}
 			}
 			g := env.EvalBool(l.E)
-			for i, pc := range e.splitGoal(g) {
+			lemmaSplit = true
+			pieces := e.splitGoal(g)
+			lemmaSplit = false
+			for i, pc := range pieces {
 				n := "lemma:" + l.Name
 				if i > 0 {
 					n = fmt.Sprintf("%s.%d", n, i)
